@@ -4,8 +4,8 @@ evidence files, known findings."""
 import json, os, re, subprocess, sys, time, shutil, hashlib, tempfile
 from concurrent.futures import ThreadPoolExecutor
 
-ROOT = "/verif"
-SPEC = ROOT + "/spec"
+ROOT = os.environ.get("VERIF_ROOT") or os.path.dirname(os.path.dirname(os.path.abspath(__file__)))   # /verif
+SPEC = os.environ.get("VERIF_SPEC", ROOT + "/spec")      # (development: a copy of the specifications being edited)
 # Scratch mode (development only: mutation / seeded-change runs that must not touch /repo or the
 # registered evidence): VERIF_REPO names another checkout, VERIF_SCRATCH a directory that receives the
 # build tree, the scratch output, the evidence and the replay files of that run.
